@@ -83,6 +83,8 @@ def op_table(repo: Repo, op: Op) -> List[Tuple[dict, List[Outcome]]]:
         for v in valuations():
             outs, eng = run_method(repo, op.func, op.cls, v)
             rows.append((v, outs))
+            if not any(o.kind == "ret" for o in outs):
+                raise AnalysisError(f"ESP: {op.label} has no returning path under {val_str(v)} (helper resolved to an abstract method?)")
             st["valuations"] += 1
             st["outcomes"] += len(outs)
             st["forks"] += eng.fork_count
